@@ -50,16 +50,17 @@ type Out struct {
 }
 
 type Case struct {
-	Op      string `json:"op"` // node | parse | validate
-	Kind    string `json:"kind"`
-	Extra   string `json:"extra"`
-	Genesis bool   `json:"genesis,omitempty"`
-	Version uint8  `json:"version,omitempty"`
-	Asset   string `json:"asset,omitempty"`
-	Outs    []Out  `json:"outs,omitempty"`
-	Prev    *Prev  `json:"prev,omitempty"`
-	Model   bool   `json:"model"`
-	Seq     []Case `json:"seq,omitempty"` // op "seq": steps run in order in one process
+	Op      string      `json:"op"` // node | parse | validate
+	Kind    string      `json:"kind"`
+	Extra   string      `json:"extra"`
+	Genesis bool        `json:"genesis,omitempty"`
+	Version uint8       `json:"version,omitempty"`
+	Asset   string      `json:"asset,omitempty"`
+	Outs    []Out       `json:"outs,omitempty"`
+	Prev    *Prev       `json:"prev,omitempty"`
+	Model   bool        `json:"model"`
+	Seq     []Case      `json:"seq,omitempty"`   // op "seq": steps run in order in one process
+	Store   []StoreStep `json:"store,omitempty"` // op "store": steps against one real Badger store
 }
 
 const (
@@ -368,6 +369,9 @@ func caseKey(cs Case) string {
 	for _, o := range cs.Outs {
 		fmt.Fprintf(h, "%d,%d,%s,%s;", o.Type, o.NKeys, o.Script, o.Amount)
 	}
+	for _, st := range cs.Store {
+		fmt.Fprintf(h, "%s,%d,%s,%s,%s;", st.Do, st.TS, st.Extra, st.Amount, st.Key)
+	}
 	if cs.Prev != nil {
 		fmt.Fprintf(h, "%s|%s|%s|", cs.Prev.Mode, cs.Prev.CS, cs.Prev.CV)
 		for _, n := range cs.Prev.Nodes {
@@ -411,6 +415,10 @@ func outcome(op string, pan bool, err error) string {
 // earlier step is still there for the later ones.  Every observation of a
 // sequence is reported with the WHOLE sequence, which is what a replay needs.
 func run(c *vh.Ctx, cs Case) {
+	if cs.Op == "store" {
+		runStore(c, cs)
+		return
+	}
 	if cs.Op == "seq" {
 		for _, st := range cs.Seq {
 			runStep(c, st, cs)
@@ -808,7 +816,7 @@ func (g *gen) mutated(m string) Case {
 	specs := s.specs
 	es := g.entries(specs)
 	approver := &s.prevCust.PrivateSpendKey
-	var post func(b []byte) []byte // on the assembled body before approval
+	var post func(b []byte) []byte  // on the assembled body before approval
 	var final func(b []byte) []byte // on the complete extra
 	i := g.r.Intn(n)
 	j := (i + 1 + g.r.Intn(n-1)) % n
@@ -1301,6 +1309,7 @@ func main() {
 	c.Rep.Rule = "custodian updates of 7..50 entries built with real keys and signatures (common.EncodeCustodianNode), " +
 		"then reordered / duplicated / byte-mutated / re-approved, against previous custodian states (none, error, empty, same set, " +
 		"overlapping with changed payee or custodian keys, duplicate entries) and amounts at price-1, price, price+1; " +
+		"plus stateful sequences on a real Badger store with the full Validate (custodian updates written before / inside / after time ranges already queried through ReadCustodian, validations approved by the current, the replaced, a later custodian or a stranger, re-opened handles, and the same without the earlier read); " +
 		"plus sequences in one process (genuine update, then copies with broken entry signatures over unchanged signed bodies, broken approval, changed body under old signatures, genuine again; and the tampered copies first); " +
 		"plus otherwise canonical updates in which one spend key is reused across roles and entries (every field pair, both orders, adjacent and far); " +
 		"non-trivial = the real parser accepts the extra so validation reaches the approval/price core (validate), " +
@@ -1315,6 +1324,10 @@ func main() {
 	g := &gen{c: c, r: c.Rng, storageS: "fffe40"}
 	g.net = crypto.Blake3Hash([]byte("verif-c34-network"))
 	g.bigLeft = c.Scale(3, 40)
+	// real Badger store + full Validate: an update stored inside an already queried time range
+	run(c, g.storeInside(false, false))
+	run(c, g.storeInside(true, false))
+	run(c, g.storeInside(false, true))
 	run(c, g.sequence(true)) // control: tampered copies before anything genuine was seen by this process
 	run(c, g.sequence(false))
 	run(c, g.sequence(false))
@@ -1333,6 +1346,12 @@ func main() {
 	}
 	for i := c.Scale(1, 25); i > 0; i-- {
 		g.crossAll(func(cs Case) { run(c, cs) })
+	}
+	for i := c.Scale(2, 60); i > 0; i-- {
+		run(c, g.storeRandom())
+		if i%2 == 0 {
+			run(c, g.storeInside(i%4 == 0, i%8 == 6))
+		}
 	}
 	for i := c.Scale(3, 30); i > 0; i-- {
 		run(c, g.sequence(i%3 == 0))
